@@ -16,9 +16,9 @@ filter=(-E 'not binary(demo_seed)'); [ -f tests/demo_seed.rs ] || filter=()
 suite=$(timeout 900 cargo nextest run --workspace --no-fail-fast --offline --test-threads 8 "${filter[@]}" 2>&1 | grep -E "Summary|error(\[|:)" | tail -2 | tr '\n' ' ')
 if [ -f "$seed/demo/run.sh" ]; then
   cp -r "$seed/demo" demo
-  with=$(cd "$wt" && (timeout 300 sh demo/run.sh >/tmp/cf/demo.out 2>&1; echo "exit=$?"; tail -2 /tmp/cf/demo.out | tr '\n' ' ') | sed 's/exit=0/passed exit=0/; s/exit=[1-9][0-9]*/failed &/')
+  with=$(cd "$wt" && (timeout 300 bash demo/run.sh >/tmp/cf/demo.out 2>&1; echo "exit=$?"; tail -2 /tmp/cf/demo.out | tr '\n' ' ') | sed 's/exit=0/passed exit=0/; s/exit=[1-9][0-9]*/failed &/')
   git apply -R "$seed/patch.diff"
-  without=$(cd "$wt" && (timeout 300 sh demo/run.sh >/tmp/cf/demo.out 2>&1; echo "exit=$?"; tail -2 /tmp/cf/demo.out | tr '\n' ' ') | sed 's/exit=0/passed exit=0/; s/exit=[1-9][0-9]*/failed &/')
+  without=$(cd "$wt" && (timeout 300 bash demo/run.sh >/tmp/cf/demo.out 2>&1; echo "exit=$?"; tail -2 /tmp/cf/demo.out | tr '\n' ' ') | sed 's/exit=0/passed exit=0/; s/exit=[1-9][0-9]*/failed &/')
 else
 with=$(timeout 300 cargo nextest run --offline --test demo_seed --no-fail-fast 2>&1 | grep -E "Summary|error(\[|:)" | tail -2 | tr '\n' ' ')
 git apply -R "$seed/patch.diff"
